@@ -6,7 +6,17 @@ import subprocess
 from .replay import HERE, PY, REPO
 
 
+_CACHE = {}
+
+
 def run_standin(script, args, timeout=1800):
+    key = (script, tuple(args))
+    if key not in _CACHE:
+        _CACHE[key] = _run_standin(script, args, timeout)
+    return _CACHE[key]
+
+
+def _run_standin(script, args, timeout=1800):
     env = dict(os.environ)
     env['PYTHONPATH'] = os.path.join(REPO, 'src')
     p = subprocess.run([PY, os.path.join(HERE, 'standins', script)] + list(args), capture_output=True, timeout=timeout, env=env)
@@ -21,6 +31,14 @@ def run_standin(script, args, timeout=1800):
 def replay_printer(ob):
     rp = ob.get('replay') or {}
     name = ob['name']
+    if 'is_curly' in name:
+        r = run_standin('fstring_curly.py', ['--depth', '2'])
+        if r.get('n_failures'):
+            return {'reproduced': True, 'input': r['failures'][:4]}
+        r = run_standin('fstring_curly.py', ['--depth', '3'])
+        if r.get('n_failures'):
+            return {'reproduced': True, 'input': r['failures'][:4]}
+        return {'reproduced': None, 'note': 'no f-string of the enumerated shapes (depth 3) fails', 'detail': r.get('error')}
     if rp.get('kind') == 'emit':
         model = rp.get('model') or ob.get('model') or {}
         child = rp.get('child') or model.get(rp.get('child_tagvar') or '', None)
